@@ -78,6 +78,15 @@ fn real_main(args: Vec<String>) -> i32 {
             let profile = args.get(2).map(String::as_str).unwrap_or("core");
             let seed: u64 = args.get(3).and_then(|s| s.parse().ok()).unwrap_or(1);
             let n: u64 = args.get(4).and_then(|s| s.parse().ok()).unwrap_or(1);
+            if let Some(rest) = profile.strip_prefix("tape:") {
+                // gen tape:<PROP>/<stream>:<index>:<len> <seed> — print generator outputs for the exact tape of a case
+                let parts: Vec<&str> = rest.split(':').collect();
+                let (ps, idx, len) = (parts[0], parts[1].parse::<u64>().unwrap_or(0), parts[2].parse::<usize>().unwrap_or(200));
+                let (prop, stream) = ps.split_once('/').unwrap_or((ps, ""));
+                let tape = driver::tape_for(seed, prop, stream, idx, len);
+                println!("{}", bv::genp::wild::generate(&tape).src);
+                return 0;
+            }
             for i in 0..n {
                 let tape = driver::tape_for(seed, "gen", profile, i, 700);
                 let o = match profile {
